@@ -866,6 +866,199 @@ Qed.
 
 End Reads.
 
+(* ---- IterEncodedObjects: the listing is exactly the repository's own objects of the asked type ---- *)
+
+Fixpoint nodup_ids (l : list bytes) : bool :=
+  match l with
+  | [] => true
+  | x :: r => negb (mem_id x r) && nodup_ids r
+  end.
+
+Lemma nodup_ids_NoDup : forall l, nodup_ids l = true -> NoDup l.
+Proof.
+  induction l as [|x l IH]; cbn; intros H; [constructor|].
+  apply andb_true_iff in H. destruct H as [H1 H2]. constructor; [|auto].
+  intros I. apply mem_id_In in I. rewrite I in H1. discriminate.
+Qed.
+
+Section IterFull.
+Variable pol : cache -> cache.
+Hypothesis pol_ok : forall c x, In x (pol c) -> In x c.
+Variable r : repo.
+Hypothesis OK : store_ok r = true.
+Variable t : option otype.
+
+Notation cok := (cache_ok (content r)).
+
+(* id is stored with the asked type *)
+Definition wanted (id : bytes) : Prop := exists o, content r id = Some o /\ typed t o = RFound o.
+
+Lemma typed_found : forall o x, typed t o = RFound x -> x = o.
+Proof. intros o x H. unfold typed in H. destruct t as [t0|]; [destruct (otype_eqb t0 (o_type o))|]; congruence. Qed.
+
+Lemma iter_loose_full : forall l c acc c' acc',
+  (forall id o, In (id, o) l -> content r id = Some o) -> cok c ->
+  iter_loose pol l c t acc = (c', acc') ->
+  (forall id, In id (map fst acc') <-> In id (map fst acc) \/ (In id (map fst l) /\ wanted id)).
+Proof.
+  induction l as [|[id o] l IH]; intros c acc c' acc' L C H; cbn in H.
+  - inversion H; subst. intros id. cbn. tauto.
+  - assert (Co : content r id = Some o) by (apply L; now left).
+    assert (L' : forall i x, In (i, x) l -> content r i = Some x) by (intros; apply L; now right).
+    assert (STEP : forall c1 o1, o1 = o -> cok c1 ->
+              iter_loose pol l c1 t (match typed t o1 with RFound _ => acc ++ [(id, o1)] | _ => acc end) = (c', acc') ->
+              forall i, In i (map fst acc') <-> In i (map fst acc) \/ (In i (map fst ((id, o) :: l)) /\ wanted i)).
+    { intros c1 o1 -> C1 H1 i. rewrite (IH _ _ _ _ L' C1 H1). cbn [map fst In].
+      destruct (typed t o) eqn:Ty.
+      - rewrite map_app, in_app_iff. cbn. pose proof (typed_found _ _ Ty); subst.
+        split.
+        + intros [[A|[<-|[]]]|[A W]]; auto. right. split; [now left|]. exists o. auto.
+        + intros [A|[[<-|A] W]]; auto.
+      - split.
+        + intros [A|[A W]]; auto.
+        + intros [A|[[<-|A] W]]; auto. destruct W as [o' [C' T']]. rewrite Co in C'. inversion C'; subst. congruence.
+      - split.
+        + intros [A|[A W]]; auto.
+        + intros [A|[[<-|A] W]]; auto. destruct W as [o' [C' T']]. rewrite Co in C'. inversion C'; subst. congruence. }
+    destruct (cache_get c id) as [o'|] eqn:G.
+    + assert (o' = o) by (pose proof (cache_ok_get _ _ _ _ C G); congruence).
+      eapply (STEP c o'); eauto.
+    + eapply (STEP _ o); [reflexivity | apply cache_ok_put; [exact pol_ok | exact C | exact Co] | exact H].
+Qed.
+
+Lemma iter_loose_nodup : forall l acc c c' acc', NoDup (map fst acc ++ map fst l) ->
+  (forall id o, In (id, o) l -> content r id = Some o) -> cok c ->
+  iter_loose pol l c t acc = (c', acc') -> NoDup (map fst acc').
+Proof.
+  induction l as [|[id o] l IH]; intros acc c c' acc' N L C H; cbn in H.
+  - inversion H; subst. now rewrite app_nil_r in N.
+  - assert (Co : content r id = Some o) by (apply L; now left).
+    assert (L' : forall i x, In (i, x) l -> content r i = Some x) by (intros; apply L; now right).
+    assert (N1 : NoDup (map fst (acc ++ [(id, o)]) ++ map fst l)).
+    { rewrite map_app, <- app_assoc. exact N. }
+    assert (N2 : NoDup (map fst acc ++ map fst l)).
+    { cbn in N. apply NoDup_remove_1 in N. exact N. }
+    destruct (cache_get c id) as [o'|] eqn:Gt.
+    + assert (o' = o) by (pose proof (cache_ok_get _ _ _ _ C Gt); congruence). subst.
+      destruct (typed t o); [eapply (IH (acc ++ [(id, o)]) c) | eapply (IH acc c) | eapply (IH acc c)]; eauto.
+    + assert (C1 : cok (cache_put pol c id o)) by (apply cache_ok_put; auto).
+      destruct (typed t o); [eapply (IH (acc ++ [(id, o)]) (cache_put pol c id o)) | eapply (IH acc (cache_put pol c id o)) | eapply (IH acc (cache_put pol c id o))]; eauto.
+Qed.
+
+(* the pack phase: [seen] are the ids already decided, [acc] the listing so far *)
+Record pinv (seen : list bytes) (acc : list (bytes * obj)) : Prop := {
+  pi_src : forall id, In id (map fst acc) -> has_copy (r_main r) id;
+  pi_sub : forall id, In id (map fst acc) -> In id seen;
+  pi_nodup : NoDup (map fst acc);
+  pi_seen : forall id, In id seen -> wanted id -> In id (map fst acc);
+  pi_acc : forall id, In id (map fst acc) -> wanted id
+}.
+
+Lemma iter_pack_full : forall s p es c seen acc ok c' seen' acc' ok',
+  s = r_main r -> In p (s_packs s) -> incl es p -> cok c -> pinv seen acc ->
+  iter_pack pol p es c t seen acc ok = (c', seen', acc', ok') ->
+  cok c' /\ pinv seen' acc' /\ (forall id, In id seen -> In id seen') /\
+  (forall e, In e es -> wanted (e_id e) -> In (e_id e) seen').
+Proof.
+  intros s p es. induction es as [|e es IH]; intros c seen acc ok c' seen' acc' ok' Es Ip I C P H; cbn [iter_pack] in H.
+  - inversion H; subst. split; [assumption|]. split; [assumption|]. split; [auto|]. intros e [].
+  - assert (Ie : In e p) by (apply I; now left).
+    assert (I' : incl es p) by (intros x Hx; apply I; now right).
+    assert (Is : In s (stores r)) by (subst s; now left).
+    destruct (entry_resolves r OK _ _ _ Is Ip Ie) as [o [R Co]].
+    assert (NOTW : typed t o <> RFound o -> ~ wanted (e_id e)).
+    { intros N [o' [C' T']]. rewrite Co in C'. inversion C'; subst. contradiction. }
+    assert (REST : forall c1 seen1 acc1 ok1, cok c1 -> pinv seen1 acc1 -> (forall id, In id seen -> In id seen1) ->
+               (wanted (e_id e) -> In (e_id e) seen1) ->
+               iter_pack pol p es c1 t seen1 acc1 ok1 = (c', seen', acc', ok') ->
+               cok c' /\ pinv seen' acc' /\ (forall id, In id seen -> In id seen') /\
+               (forall x, In x (e :: es) -> wanted (e_id x) -> In (e_id x) seen')).
+    { intros c1 seen1 acc1 ok1 C1 P1 S1 W1 H1.
+      destruct (IH _ _ _ _ _ _ _ _ Es Ip I' C1 P1 H1) as (A & B & D & E).
+      split; [assumption|]. split; [assumption|]. split; [auto|]. intros x [<-|Hx] Wx; [apply D; auto | apply E; auto]. }
+    destruct (match e_kind e, t with KBase t' _, Some t0 => negb (otype_eqb t0 t') | _, _ => false end) eqn:SK.
+    + (* skipped on its header: a base entry of another type *)
+      eapply REST; eauto. intros W. exfalso.
+      destruct (e_kind e) as [t' d| |] eqn:K; try discriminate. destruct t as [t0|]; try discriminate.
+      assert (o = Obj t' d).
+      { cbn [presolve] in R. rewrite K in R. congruence. }
+      subst. apply (NOTW); [|exact W]. unfold typed. cbn. apply negb_true_iff in SK. rewrite SK. discriminate.
+    + destruct (resolve_ok pol pol_ok (content r) _ p c e o (store_pack_ok r OK _ _ Is Ip) Ie C R) as [c1 [E C1]].
+      rewrite E in H.
+      destruct (typed t o) eqn:Ty.
+      * pose proof (typed_found _ _ Ty); subst o0.
+        destruct (mem_id (e_id e) seen) eqn:M.
+        -- eapply REST; eauto. intros _. now apply mem_id_In.
+        -- eapply REST; [exact C1 | | | | exact H].
+           ++ assert (NS : ~ In (e_id e) seen) by (intros X; apply mem_id_In in X; congruence).
+              destruct P as [P0 P1 P2 P3 P4]. constructor.
+              ** intros id. rewrite map_app, in_app_iff. cbn. intros [A|[<-|[]]]; [now apply P0|].
+                 right. exists p. split; [subst s; exact Ip | now apply in_map].
+              ** intros id. rewrite map_app, in_app_iff. cbn. intros [A|[<-|[]]]; [right; now apply P1 | now left].
+              ** rewrite map_app. cbn. apply NoDup_app_intro_single; [assumption|]. intros X. apply NS. now apply P1.
+              ** intros id [<-|A] W; rewrite map_app, in_app_iff; [right; now left | left; now apply P3].
+              ** intros id. rewrite map_app, in_app_iff. cbn. intros [A|[<-|[]]]; [now apply P4|]. exists o. auto.
+           ++ intros id A. now right.
+           ++ intros _. now left.
+      * eapply REST; eauto. intros W. exfalso. apply NOTW; [congruence | exact W].
+      * eapply REST; eauto. intros W. exfalso. apply NOTW; [congruence | exact W].
+Qed.
+
+Lemma iter_packs_full : forall s ps c seen acc ok c' acc' ok',
+  s = r_main r -> incl ps (s_packs s) -> cok c -> pinv seen acc ->
+  iter_packs pol ps c t seen acc ok = (c', acc', ok') ->
+  exists seen', pinv seen' acc' /\ (forall id, In id seen -> In id seen') /\
+  (forall p e, In p ps -> In e p -> wanted (e_id e) -> In (e_id e) seen').
+Proof.
+  intros s ps. induction ps as [|p ps IH]; intros c seen acc ok c' acc' ok' Is I C P H; cbn in H.
+  - inversion H; subst. exists seen. split; [assumption|]. split; [auto|]. intros p e [].
+  - destruct (iter_pack pol p p c t seen acc ok) as [[[c1 seen1] acc1] ok1] eqn:E.
+    destruct (iter_pack_full s p p _ _ _ _ _ _ _ _ Is (I p (or_introl eq_refl)) (incl_refl _) C P E) as (C1 & P1 & S1 & W1).
+    destruct (IH _ _ _ _ _ _ _ Is (fun x Hx => I x (or_intror Hx)) C1 P1 H) as [seen' (P' & S' & W')].
+    exists seen'. split; [assumption|]. split; [auto|].
+    intros q e [<-|Hq] He W; [apply S', W1; auto | eapply W'; eauto].
+Qed.
+
+Theorem iter_objects_full : forall st st' res,
+  nodup_ids (map fst (s_loose (r_main r))) = true -> cok (rs_cache st) ->
+  iter_objects pol r st t = (st', res) ->
+  exists l, res = Some l /\ NoDup (map fst l) /\
+  forall id, In id (map fst l) <-> (has_copy (r_main r) id /\ wanted id).
+Proof.
+  intros st st' res ND C H.
+  destruct (iter_objects_ok pol pol_ok r OK st t st' res C H) as [_ [l [-> SL]]]. exists l. split; [reflexivity|].
+  unfold iter_objects in H.
+  destruct (iter_loose pol (s_loose (r_main r)) (rs_cache st) t []) as [c1 acc1] eqn:E1.
+  assert (L : forall id o, In (id, o) (s_loose (r_main r)) -> content r id = Some o).
+  { intros id o I.
+    assert (J : In (id, Some o) (copies r)).
+    { apply copies_stores. exists (r_main r). split; [now left|]. unfold store_copies. apply in_or_app. left.
+      apply in_map_iff. exists (id, o). auto. }
+    destruct (copy_content r OK _ _ J) as [o' [E Co]]. inversion E; subst. exact Co. }
+  pose proof (iter_loose_full _ _ _ _ _ L C E1) as F1. cbn in F1.
+  destruct (iter_loose_ok pol pol_ok r _ _ _ _ _ _ L C (fun _ _ (F : In _ []) => match F with end) E1) as [C1 S1].
+  destruct (iter_packs pol (s_packs (r_main r)) c1 t (map fst (s_loose (r_main r))) acc1 true) as [[c2 acc2] ok] eqn:E2.
+  assert (NL : NoDup (map fst acc1)).
+  { eapply iter_loose_nodup; [| exact L | exact C | exact E1]. cbn. now apply nodup_ids_NoDup. }
+  assert (P0 : pinv (map fst (s_loose (r_main r))) acc1).
+  { constructor.
+    - intros id I. apply F1 in I. destruct I as [[]|[I _]]. now left.
+    - intros id I. apply F1 in I. destruct I as [[]|[I _]]. exact I.
+    - exact NL.
+    - intros id I W. apply F1. right. auto.
+    - intros id I. apply F1 in I. destruct I as [[]|[_ W]]. exact W. }
+  destruct (iter_packs_full (r_main r) _ _ _ _ _ _ _ _ eq_refl (incl_refl _) C1 P0 E2) as [seen' (P' & S' & W')].
+  inversion H; subst. destruct P' as [P0' P1 P2 P3 P4].
+  destruct ok; [|discriminate]. match goal with X : Some _ = Some _ |- _ => inversion X; subst end.
+  split; [assumption|]. intros id. split.
+  - intros I. split; [now apply P0' | now apply P4].
+  - intros [[HL|[p [Ip He]]] W].
+    + apply P3; [apply S'; exact HL | exact W].
+    + apply in_map_iff in He. destruct He as [e [<- Ie]]. apply P3; [eapply W'; eauto | exact W].
+Qed.
+
+End IterFull.
+
 (* two runs (different eviction policies, caches, hints) give the same answers *)
 Lemma Forall2_spec_eq : forall (S : read -> option out) rds a b,
   Forall2 (fun rd o => forall x, S rd = Some x -> o = x) rds a ->
